@@ -9,7 +9,7 @@ BOUNDED = [
     {'name': 'C09.sched', 'script': 'bounded/c09_sched.py', 'timeout': 900,
      'bound': '3 file sets x N in {1,2,3} x {sync backend in executor threads, coroutine backend} x 2 (thorough: 16) seeds of random per-call '
               'latencies (permuted completion orders) + restore locks replaced by GIL-yielding locks; one injected permanent failure per configuration; '
-              'oracle: same restored bytes as the files, no spurious error, outstanding transfers <= N, all slots free after quiescence'},
+              'oracle: same restored bytes as the files, no spurious error, outstanding transfers <= N, all slots free after quiescence; one failing download of a restore while its siblings hold their slots and further loaders wait (sync and async backend, concurrency 1 and 2): restore ends with that error and all slots return; a timer thread reports commands that block the event loop itself'},
 ]
 TRUSTED = [
     'vf symbolic executor (/verif/vf)', 'z3 5.1',
